@@ -7,7 +7,7 @@ cd /verif
 LANES=${1:-4}
 OUT=/tmp/seedregress_summary.txt
 : > $OUT
-seeds=$(ls seeded | sort)
+seeds=$(for d in $(ls seeded | sort); do grep -q '"retired"' seeded/$d/meta.json 2>/dev/null || echo $d; done)
 run_lane() {
   lane=$1; shift
   for s in "$@"; do
